@@ -63,6 +63,17 @@ Theorem recover_survives_lost_race : forall now via me, doc_recovery via = true 
 Proof. exact recover_run_spec. Qed.
 Print Assumptions recover_survives_lost_race.
 
+(* "never steals live work" for child workers: the parent reports its live children's heartbeats on EVERY iteration of its
+   loop (generated from BaseRunner.run), so their evidence of life is never older than one loop period, whatever the
+   atomic-service gate; with the report behind the gate it can be (refuted). *)
+Theorem live_child_heartbeat_is_fresh : forall loop_period gate_interval timeout : Z,
+  (loop_period < timeout)%Z -> (child_hb_max_age child_heartbeats_every_iteration loop_period gate_interval < timeout)%Z.
+Proof. exact live_child_fresh_l. Qed.
+Print Assumptions live_child_heartbeat_is_fresh.
+Theorem gated_child_heartbeats_refuted : exists loop_period gate_interval timeout : Z,
+  (loop_period < timeout)%Z /\ ~ (child_hb_max_age false loop_period gate_interval < timeout)%Z.
+Proof. exact gated_report_stale. Qed.
+
 (* why tolerance is needed: aborting on the first lost race strands what was already marked *)
 Theorem abort_on_lost_race_refuted :
   exists ids w, NoDup ids /\
